@@ -62,6 +62,12 @@ func Load(repo string, patterns []string) (*Verifier, error) {
 		return nil, err
 	}
 	overlay := map[string][]byte{}
+	type genPkg struct {
+		p     *packages.Package
+		plain []*Contract
+		path  string
+	}
+	var gens []genPkg
 	for _, p := range pk1 {
 		for _, e := range p.Errors {
 			v.loadErrs = append(v.loadErrs, "phase1: "+e.Error())
@@ -101,12 +107,56 @@ func Load(repo string, patterns []string) (*Verifier, error) {
 		gp := filepath.Join(dir, "zz_clauses_gen_verif.go")
 		overlay[gp] = []byte(src)
 		v.genFiles[gp] = src
+		gens = append(gens, genPkg{p, plain, gp})
 	}
-	// phase 2
-	cfg2 := &packages.Config{Mode: packages.LoadAllSyntax, Dir: repo, BuildFlags: []string{"-tags=verif"}, Env: goEnv(), Overlay: overlay}
-	pk2, err := packages.Load(cfg2, patterns...)
-	if err != nil {
-		return nil, err
+	// phase 2 (a second round when clause functions do not type-check against the current source: those
+	// clauses are taken out and reported per clause instead of failing every check of the package)
+	var pk2 []*packages.Package
+	for round := 0; round < 2; round++ {
+		cfg2 := &packages.Config{Mode: packages.LoadAllSyntax, Dir: repo, BuildFlags: []string{"-tags=verif"}, Env: goEnv(), Overlay: overlay}
+		pk2, err = packages.Load(cfg2, patterns...)
+		if err != nil {
+			return nil, err
+		}
+		again := false
+		var rest []string
+		for _, p := range pk2 {
+			for _, e := range p.Errors {
+				charged := false
+				if round == 0 {
+					// position "file:line:col"
+					parts := strings.SplitN(e.Pos, ":", 3)
+					if len(parts) >= 2 {
+						for _, g := range gens {
+							if parts[0] == g.path {
+								var line int
+								fmt.Sscanf(parts[1], "%d", &line)
+								if markBrokenAt(v.genFiles[g.path], line, "does not type-check against the current source: "+e.Msg, g.plain) {
+									charged, again = true, true
+								}
+							}
+						}
+					}
+				}
+				if !charged {
+					rest = append(rest, "phase2: "+e.Error())
+				}
+			}
+		}
+		if !again {
+			v.loadErrs = append(v.loadErrs, rest...)
+			break
+		}
+		for _, g := range gens {
+			src, _ := generateClauses(g.p, g.plain)
+			overlay[g.path] = []byte(src)
+			v.genFiles[g.path] = src
+		}
+	}
+	for _, g := range gens {
+		for _, c := range g.plain {
+			pruneBroken(c)
+		}
 	}
 	v.pkgs = pk2
 	v.allPkgs = map[string]*packages.Package{}
@@ -114,9 +164,6 @@ func Load(repo string, patterns []string) (*Verifier, error) {
 		v.allPkgs[p.PkgPath] = p
 	})
 	for _, p := range pk2 {
-		for _, e := range p.Errors {
-			v.loadErrs = append(v.loadErrs, "phase2: "+e.Error())
-		}
 		v.fset = p.Fset
 		for i, f := range p.Syntax {
 			if i < len(p.CompiledGoFiles) {
@@ -375,6 +422,9 @@ func (v *Verifier) VerifyFunc(c *Contract) (res *FuncResult) {
 	fn := v.findFunction(c.PkgPath, c.Func)
 	if fn == nil {
 		res.Unsupported = "function not found: " + c.Func
+		if c.Broken != "" {
+			res.Unsupported = c.Broken
+		}
 		return
 	}
 	res.Fn = fn
@@ -395,6 +445,17 @@ func (v *Verifier) VerifyFunc(c *Contract) (res *FuncResult) {
 			panic(r)
 		}
 	}()
+	// clauses that do not apply to the current source (missing anchor or loop, identifiers that no longer
+	// exist): each is a failed obligation of its own properties; the rest of the contract is still checked
+	for _, cl := range c.BrokenClauses {
+		label := cl.Kind + " " + cl.Text
+		if cl.Anchor != "" {
+			label = cl.Kind + " \"" + cl.Anchor + "\": " + cl.Text
+		}
+		o := &Obligation{Name: ex.oblName(&Frame{fn: fn}, "contract", "clause does not apply to the current source: "+label), Kind: "contract", Props: cl.Props,
+			Fn: fn.String(), Status: "failed", PC: True, Goal: False, Note: cl.Broken}
+		ex.obls = append(ex.obls, o)
+	}
 	idUpper = map[*Term][]idBound{}
 	nextSyms = map[*Term]bool{}
 	nextGE = map[*Term]idBound{}
